@@ -75,6 +75,9 @@ pub enum Op {
     HoldDrop { slot: usize },
     Flush,
     Compact,
+    /// up to `n` consecutive units of compaction work (stops early when idle): the compaction
+    /// thread got a long turn, e.g. sinking a table through many empty levels by trivial moves
+    CompactMany { n: usize },
     Verify,
     Reopen,
     Ingest { ents: Vec<Ent> },
@@ -93,6 +96,7 @@ impl Op {
             Op::HoldDrop { .. } => "hold_drop",
             Op::Flush => "flush",
             Op::Compact => "compact",
+            Op::CompactMany { .. } => "compact",
             Op::Verify => "verify",
             Op::Reopen => "reopen",
             Op::Ingest { .. } => "ingest",
@@ -271,6 +275,23 @@ impl Profile {
                     ("--sst-minimum-file-size", "4096"),
                 ],
                 verify_boost: 6,
+                ..base
+            },
+            // Many one- or two-entry tables piling up between compactions and no reopen: the
+            // shapes in which a compaction spans three or more sparsely filled levels.
+            "kvs-pile" => Profile {
+                name: "kvs-pile",
+                min_ops: 40,
+                max_ops: 160,
+                scans: true,
+                verify: false,
+                reopen: false,
+                gc_variety: false,
+                force_opts: vec![
+                    ("--memtable-size-bytes", "0"),
+                    ("--l0-mandatory-compaction-threshold-files", "2"),
+                    ("--max-compaction-files", "64"),
+                ],
                 ..base
             },
             "kvs-stall" => Profile {
@@ -563,6 +584,12 @@ pub fn generate(seed: u64, p: &Profile) -> History {
         if p.holds { rng.range(4, 14) as u32 } else { 0 },     // hold_use
         if p.holds { rng.range(0, 3) as u32 } else { 0 },      // hold_drop
     ];
+    if p.name == "kvs-pile" {
+        // a flush after nearly every write, compaction steps rarer than flushes
+        w[2] = w[2].min(3);
+        w[5] = w[0] + w[1];
+        w[6] = rng.range(2, 10) as u32;
+    }
     if p.mode == Mode::Tree {
         // In tree mode the only writer is ingest (mapped onto "batch"), there is no memtable.
         w[0] = 0;
@@ -583,6 +610,8 @@ pub fn generate(seed: u64, p: &Profile) -> History {
             rng.usize_below(keys.len())
         }
     };
+    // Per-run share (in quarters) of compaction turns that are long ones.
+    let long_turns = *rng.pick(&[0u64, 1, 3]);
     let mut ops = Vec::with_capacity(nops);
     let mut slots_open = [false; 3];
     while ops.len() < nops {
@@ -628,7 +657,13 @@ pub fn generate(seed: u64, p: &Profile) -> History {
                 prog: gen_prog(&mut rng, &keys, 40),
             },
             5 => Op::Flush,
-            6 => Op::Compact,
+            6 => {
+                if rng.chance(long_turns, 4) {
+                    Op::CompactMany { n: *rng.pick(&[3usize, 8, 20, 48]) }
+                } else {
+                    Op::Compact
+                }
+            }
             7 => Op::Verify,
             8 => Op::Reopen,
             9 => {
